@@ -42,6 +42,7 @@ def cases_for(rng, n, per):
 def run(rep):
     rng = random.Random(rep.seed)
     quick = rep.tier == "quick"
+    P.replay_witnesses(rep, PID)
     rep.rule = ("S->I: the MC_Peg 'mods' universe (noskipws and ws rule modifiers, nested rules inheriting and "
                 "overriding them, eolterm, with and without a Comment rule) x all inputs of <= 5 symbols over "
                 "{a, b, space, newline, #}; I->S: seeded-random grammars with global skipws/ws settings, rule modifiers "
